@@ -73,6 +73,11 @@ func (p *c8Pat) hasEntry(n ast.Node) bool {
 	return false
 }
 
+// namesPkg reports whether the pattern text names a symbol of the generated package c08/<dir>.
+func (p *c8Pat) namesPkg(dir string) bool {
+	return strings.Contains(p.Text, c8Mod+"/"+dir+".")
+}
+
 func c8NewPat(text, src string) (*c8Pat, error) {
 	p, err := c8Parse(text)
 	if err != nil {
@@ -450,7 +455,7 @@ func c8DropKey(pat, pkg string) string { return "drop|" + c8KeyText(pat) + "|" +
 type c8Stats struct {
 	pairs, nodes, nontrivial, leftMatches, rightMatches int64
 	illFormed, otherPanics, dupLeft, extraPairs         int64
-	listOnly                                            int64
+	listOnly, outOfScope                                int64
 	stageReject, stageCalls, stageEntry                 int64
 }
 
@@ -501,7 +506,7 @@ func TestVerifC08(t *testing.T) {
 
 	lib := c8Mod + "/lib."
 	symsQ := []string{lib + "F", "(" + lib + "T).VM", "(*" + lib + "T).PM", "(" + lib + "I).IM", lib + "N", lib + "T", lib + "V", lib + "C", lib + "G", "len", "append"}
-	symsT := append(append([]string{}, symsQ...), lib+"FV", lib+"G2", "("+lib+"T).IM", lib+"I")
+	symsT := append(append([]string{}, symsQ...), lib+"FV", lib+"G2", "("+lib+"T).IM", lib+"I", c8Mod+"/mid.AN")
 	orQ := []string{lib + "F", "(" + lib + "T).VM", lib + "N", "len"}
 	orT := append(append([]string{}, orQ...), lib+"G", lib+"V")
 	depth := 3
@@ -594,6 +599,12 @@ func TestVerifC08(t *testing.T) {
 	}
 
 	doPair := func(p *c8Pat, k *c8Pkg) {
+		// Scope of the property: the symbols named by the pattern are not declared in the analysed
+		// package. Generated packages are named gen:<dir>; a pattern naming c08/<dir>.X is not run on it.
+		if strings.HasPrefix(k.Name, "gen:") && p.namesPkg(k.Name[4:]) {
+			atomic.AddInt64(&st.outOfScope, 1)
+			return
+		}
 		o := c8Compare(p, k)
 		res.Eval(1)
 		atomic.AddInt64(&st.pairs, 1)
@@ -765,6 +776,7 @@ func TestVerifC08(t *testing.T) {
 	res.Count("panics_on_node_kinds_never_offered_counted_as_no_match", st.otherPanics)
 	res.Count("pairs_with_duplicate_results", st.dupLeft)
 	res.Count("pairs_with_extra_results", st.extraPairs)
+	res.Count("pairs_not_run_symbol_declared_in_analysed_package", st.outOfScope)
 	res.Count("pairs_with_unasserted_BlockStmt_FieldList_matches", st.listOnly)
 	if st.listOnly > 0 {
 		res.Unassert(fmt.Sprintf("brute-force matches on BlockStmt/FieldList nodes for patterns whose root is not a List (the only element's match seen through the list, or a catch-all root on a node kind the language cannot name) are not yielded by code.Matches: %d pairs; not asserted", st.listOnly))
